@@ -50,5 +50,4 @@ memmove(void *dest, const void *src, size_t n)
     }
     return dest;
 }
-
 #endif
